@@ -545,7 +545,45 @@ pub fn run(tier: Tier) -> i32 {
             });
         }
     }
-    rep.cov("evaluations", json!(cases.len() + cli_cases.len()));
+    // layer / stave filter values that no header can carry (3 bits of layer, 6 bits of stave in the FEE ID): the tool
+    // shows no RDH at all or refuses the value - it does not show another stave's RDHs
+    let mut oor = 0u64;
+    {
+        let staves = [(0u8, 1u8), (3, 2), (5, 35)];
+        let pk: Vec<Packet> = (0..9).map(|i| gen::recognisable_framed((i % 3) as u8, Rdh::its_fee_id(staves[i % 3].0, staves[i % 3].1, 0), 32, 77_000 + i as u64)).collect();
+        let bytes = stream::to_bytes(&pk);
+        let values = ["L8_1", "L0_65", "L16_1", "L0_129", "L11_2", "L3_66", "L13_35", "L5_99", "l255_255"];
+        let jobs: Vec<(&str, bool)> = values.iter().flat_map(|v| [(*v, false), (*v, true)]).collect();
+        let res = par_map(&jobs, |_, (v, stdin)| -> Option<String> {
+            let scratch = Scratch::new("c03r");
+            let mut args: Vec<String> = Vec::new();
+            if !*stdin {
+                args.push(scratch.file("in.raw", &bytes).display().to_string());
+            }
+            args.extend(["--filter-its-stave".to_string(), v.to_string(), "view".into(), "rdh".into(), "-d".into()]);
+            let mut run = Run::new(&args).cwd(&scratch.path);
+            if *stdin {
+                run = run.stdin(&bytes);
+            }
+            let r = run.run();
+            if r.timed_out {
+                return Some("the run did not end".into());
+            }
+            let rows = parse_rdh_rows(&crate::c02::strip_ansi(&r.stdout_str()));
+            if !rows.is_empty() {
+                return Some(format!("{} RDH rows shown (first at offset {:#x}) although no header can carry this layer / stave", rows.len(), rows[0].0));
+            }
+            None
+        });
+        for ((v, stdin), r) in jobs.iter().zip(res.iter()) {
+            oor += 1;
+            if let Some(d) = r {
+                rep.violation(Violation { signature: "scan:out-of-range-stave-filter:rows-of-another-stave".into(), description: format!("{d} [--filter-its-stave {v} view rdh, stdin={stdin}]"), replay: json!({"engine": "enum/cli", "input_hex": hex(&bytes), "args": ["--filter-its-stave", v], "stdin": stdin}) });
+            }
+        }
+    }
+    rep.cov("out_of_range_stave_filter_cases", json!(oor));
+    rep.cov("evaluations", json!(cases.len() + cli_cases.len() + oor as usize));
     rep.cov("in_process_cases", json!(cases.len()));
     rep.cov("cli_cases", json!(cli_cases.len()));
     rep.cov("distinct_nontrivial", json!(nontrivial.len()));
